@@ -398,7 +398,13 @@ theorem discovery_switch (cfg : Config) (hnew : cfg.matches .new = true) (hundo 
     have hn : R.id ∉ (c0 :: cs0).map (·.blk.id) := by
       intro hm; obtain ⟨x, hx, hxe⟩ := List.mem_map.mp hm; exact hnl x hx hxe
     have hfa : Faithful db2 (c0 :: cs0) := by
-      intro e he; obtain ⟨e0, g1, g2, _⟩ := hfa5 e he; exact ⟨e0, g1, g2⟩
+      intro e he; obtain ⟨e0, g1, g2, _⟩ := hfa5 e he
+      obtain ⟨e1, k1, k2⟩ := reversibleSegment_nums _ _ _ _ _ hrs (by
+        intro eb heb
+        rw [hfind2, show (appendBlk s.db b).find b.ref.id = some ⟨b, false⟩ from find_append_self s.db b hf] at heb
+        injection heb with heb; subst heb; rfl) e he
+      rw [g1] at k1; injection k1 with k1; subst k1
+      exact ⟨e0, g1, g2, k2⟩
     generalize hs3 : ({ s with db := db2, cache := some (c0 :: cs0) } : FState) = s3 at ⊢
     have hs3db : s3.db = db2 := by rw [← hs3]
     have hs3lib : s3.db.libRef = R := by rw [hs3db, hlib2]
@@ -496,7 +502,7 @@ theorem discovery_switch (cfg : Config) (hnew : cfg.matches .new = true) (hundo 
           rw [hout.cache, ← hs3] at hcache
           simp only [Option.some.injEq, List.cons.injEq] at hcache
           rw [hsame.1, hs3lib, ← hcache.1]
-          obtain ⟨e0, h0, h1⟩ := hfa c0 (by simp)
+          obtain ⟨e0, h0, h1, _⟩ := hfa c0 (by simp)
           rw [← h1, ← link_of_find _ _ e0 h0]
           exact hp.1)
     obtain ⟨_, _, hadvevs, hadvdb, hadvI⟩ := hadv
